@@ -30,14 +30,15 @@ fn rand_op(rng: &mut Rng) -> Sx {
     match k {
         0 | 1 | 4 => l(vec![a(k), a(rng.val(8))]),
         2 | 3 | 8 => {
-            let n = match rng.below(4) {
+            let n = match rng.below(6) {
                 0 => 0,
                 1 => rng.range(1, 4),
                 2 => rng.range(5, 64),
-                _ => rng.range(200, 700),
+                3 => rng.range(200, 700),
+                4 => rng.range(1000, 5000),
+                _ => rng.range(5, 64),
             } as usize;
-            // force a non-list-looking empty/short slice to print as a list
-            l(vec![a(k), bytes(&rng.bytes(n))])
+            l(vec![a(k), bytes(&fill(rng, n))])
         }
         5 => l(vec![a(5), a(rng.val(16))]),
         6 => l(vec![a(6), a(rng.val(32))]),
@@ -45,7 +46,36 @@ fn rand_op(rng: &mut Rng) -> Sx {
     }
 }
 
+/// slice contents: uniformly random, one repeated byte (0xff and other high values included), or biased high --
+/// a block-wise or lane-wise summation goes wrong only on long runs of large bytes
+fn fill(rng: &mut Rng, n: usize) -> Vec<u8> {
+    match rng.below(5) {
+        0 | 1 => rng.bytes(n),
+        2 => vec![0xff; n],
+        3 => vec![rng.val(8) as u8; n],
+        _ => rng.bytes(n).into_iter().map(|b| b | 0xc0).collect(),
+    }
+}
+
 pub fn gen(tier: &str, rng: &mut Rng, emit: &mut crate::Emit) {
+    // long slices through every slice entry point (append / delete / sink vec), sizes around powers of two up to > 64 KiB
+    let sizes: &[usize] = if tier == "thorough" {
+        &[255, 256, 257, 511, 512, 1023, 1024, 1025, 1028, 1032, 2047, 2048, 2049, 4096, 8192, 16384, 32768, 65535, 65536, 65537, 100_000, 1_000_000]
+    } else {
+        &[255, 256, 257, 1024, 1028, 1032, 2048, 4096, 8192, 65535, 65536, 70_000]
+    };
+    for &n in sizes {
+        for f in [0xffu8, 0x80, 0x7f, 0x01] {
+            for k in [2u64, 3, 8] {
+                let v = vec![f; n];
+                emit.case(1, l(vec![l(vec![a(0), a(rng.val(8))]), l(vec![a(k), bytes(&v)]), l(vec![a(3), bytes(&v)]), l(vec![a(2), bytes(&v)])]));
+            }
+        }
+        for k in [2u64, 3, 8] {
+            let v = fill(rng, n);
+            emit.case(1, l(vec![l(vec![a(k), bytes(&v)]), l(vec![a(3), bytes(&v)])]));
+        }
+    }
     // exhaustive: every state s (reached by add s) x every byte b, for add / sub and their inverses
     for s in 0..256u64 {
         let mut ops = vec![l(vec![a(0), a(s)])];
